@@ -273,7 +273,7 @@ class C17(Check):
     ]
     rule = ('cases = 1-3 caller threads (each its own loop, 1-2 calls) targeting one loop that is idle, running via '
             'loop_in_thread, closed, or the caller\'s own, or that changes mode between two phases (idle then run by '
-            'loop_in_thread; run, stopped while busy with a synchronous callback of up to 1 s, then idle); 30 % with an earlier '
+            'loop_in_thread; run, stopped while busy with a synchronous callback of up to 1 s, then idle); 30 % with awaitables that draw from one async generator living on the target; 30 % with an earlier '
             'target loop left as cyclic garbage and a collection run at one line of the per-loop lock bookkeeping; awaitables as coroutine / future / task returning, raising, ending in a CancelledError of their own or '
             'sleeping on a grid; ensure_aw and run_aw_threadsafe; random/pct/stall schedules; non-trivial = >= 2 calls '
             'concurrently targeting one loop that is not their own; distinct = (case, baton moves)')
